@@ -289,8 +289,9 @@ def minimise(prop, v, budget_s=120):
                 else:
                     j += 1
     faults = "|".join(parts)
-    # 4. simpler operations: unrecorded store instead of recorded, proper instead of elided
-    for i, o in enumerate(list(ops)):
+    # 4. simpler operations: unrecorded store instead of recorded (not for C09, whose
+    #    precondition is that every stored handle is recorded)
+    for i, o in enumerate(list(ops) if profile != "C09" else []):
         t = o.split()
         if t[0] == "Store" and len(t) > 3 and t[3] == "1":
             cand = ops[:i] + [" ".join(t[:3] + ["0"])] + ops[i + 1:]
@@ -515,6 +516,21 @@ def check_sim(prop, tier, seed, jobs):
                        "stub": ["payload value type (instrumented Node)", "global allocator (layout-scheduling arena)", "log backend (counting sink; Trace level in 1 run of 8, Off otherwise)"]},
         "exhaustive": False,
     }
+    if prop == "C03" and not unlisted:
+        import engines
+        nbig, fail = engines.big_shapes(prop, tier, seed, jobs)
+        coverage["big_shape_scenarios"] = nbig
+        coverage["big_shape_note"] = "orphaned groups of 300 to 5000 (thorough: 100000) members in eight shapes incl. a mutual star, each in a child process; all members must be destroyed exactly once by the last outside drop"
+        if fail:
+            j, (kind, cause, msg) = fail
+            os.makedirs(REPLAYS, exist_ok=True)
+            path = os.path.join(REPLAYS, f"C03-{j['shape']}-{j['n']}.json")
+            with open(path, "w") as f:
+                json.dump({"property": "C03", "engine": "scale", "kind": kind, "cause": cause, "shape": j["shape"], "n": j["n"], "stack_kb": j.get("stack_kb", 128), "chords": j.get("chords", 0), "selfsame_every": j.get("selfsame_every", 0), "seed": j.get("seed", seed), "expect": {"kind": kind, "cause": cause, "msg": msg}}, f, indent=1)
+            write_evidence(prop, tier, seed, LEVEL.get(prop, "exploration"), coverage, time.time() - t0, 1)
+            print(f"violation kind={kind} cause={cause} msg={msg}")
+            print(f"VIOLATION property={prop} replay={path}")
+            return 1
     if prop == "C02" and thorough and not unlisted:
         n_m = int(os.environ.get("VERIF_MIRI_HISTORIES", "640"))
         total_m, bad_m, note = miri_crosscheck(prop, seed, n_m, jobs)
